@@ -44,6 +44,8 @@ func within(got float64, exact *big.Rat, tol *big.Rat) bool {
 	return d.Cmp(tol) <= 0
 }
 
+var minNormalRat = new(big.Rat).SetFloat64(2.2250738585072014e-308)
+var halfSubnormalUlp = new(big.Rat).SetFrac(big.NewInt(1), new(big.Int).Lsh(big.NewInt(1), 1075))
 var twoM52 = new(big.Rat).SetFrac(big.NewInt(1), new(big.Int).Lsh(big.NewInt(1), 52))
 
 // genNumeric draws a numeric list. class: 0 exact (small ints and dyadic fractions), 1 general, 2 extreme ints, 3 product-friendly
@@ -156,6 +158,9 @@ func runC18(c *fw.Ctx) {
 		// one float close to the end of the float64 range next to small numbers (sum and mean stay finite in every order)
 		{1e308, 4}, {4, 1e308}, {1.7e308, 1, 2}, {-1.7e308, 3}, {1e308, 0, 0, 0}, {math.MaxFloat64, 1, -1}, {2, 8.9e307, 3.5},
 		// products at the ends of the int range (exact in float64 in every order)
+		// the bottom of the range: sums of subnormals are exact, the mean is the correctly rounded quotient
+		{5e-324, 5e-324}, {5e-324, 5e-324, 5e-324, 5e-324}, {1e-323, 5e-324}, {2.5e-323, 5e-324, 5e-324, 5e-324}, {5e-324}, {-5e-324, -5e-324}, {5e-324, -5e-324}, {1e-310, 3e-310, 5e-324, 0},
+		{2e-323, 1, -1}, {5e-324, 0, 0, 0, 0, 0, 0, 0},
 		// same-sign elements whose sum lies beyond the float64 range: every order of summation ends at that infinity
 		{1e308, 1e308}, {math.MaxFloat64, math.MaxFloat64}, {-1e308, -1e308, -1e308}, {1e308, 1, 1e308}, {9e307, 9e307, 0, 9e307}, {-math.MaxFloat64, -1, -math.MaxFloat64}, {1.5e308, 3e307, 1e307, 1},
 		{math.MinInt, -1}, {-1, math.MinInt}, {math.MinInt, -1, -1}, {math.MaxInt, -1}, {math.MinInt, 1}, {i64(1 << 31), i64(-(1 << 31)), 2, -1}, {math.MinInt, -1.0}, {-1, -1, math.MinInt, -1},
@@ -399,6 +404,11 @@ func c18NumericHist(c *fw.Ctx, l at.List, vals []any, class int, depth int, rr u
 		if class == 0 {
 			tolSum = new(big.Rat) // every partial sum is exactly representable: any order gives the exact sum
 		}
+		if sumAbs.Cmp(minNormalRat) < 0 {
+			// all partial sums of every order are subnormal: multiples of 2^-1074 below 2^-1022, added without rounding
+			tolSum = new(big.Rat)
+			c.Count("subnormal_lists")
+		}
 		exactF, _ := exactSum.Float64()
 		if math.IsInf(exactF, 0) && (mn >= 0 || mx <= 0) {
 			// elements of one sign: the partial sums of every order only grow in magnitude and stay within n * 2^-52 of the
@@ -428,6 +438,7 @@ func c18NumericHist(c *fw.Ctx, l at.List, vals []any, class int, depth int, rr u
 			tolAvg := new(big.Rat).Quo(tolSum, nn)
 			absAvg := new(big.Rat).Abs(exactAvg)
 			tolAvg.Add(tolAvg, new(big.Rat).Mul(absAvg, twoM52)) // rounding of the division
+			tolAvg.Add(tolAvg, halfSubnormalUlp)                    // ... which is absolute, not relative, at the bottom of the range
 			if !within(avg, exactAvg, tolAvg) {
 				ea, _ := exactAvg.Float64()
 				c.Violate("aggregate-wrong:Avg", in(), fmt.Sprint(ea), fmt.Sprint(avg))
